@@ -211,15 +211,20 @@ def register(hub, props=("C13", "C15"), pool=None):
             if not isinstance(dims, fd.DimensionSet):
                 return
             letters = tuple(d.letter for d in dims.dim_list)
+            own_items = [tuple(d.items) for d in dims.dim_list]
             tl = call.kwargs.get("time_letter", "t")
             why = []
             for n in ("stock", "inflow", "outflow"):
                 a = call.kwargs.get(n)
                 if isinstance(a, fd.FlodymArray) and tuple(a.dims.letters) != letters:
                     why.append(f"{n}-dims-differ")
+                elif isinstance(a, fd.FlodymArray) and [tuple(d.items) for d in a.dims.dim_list] != own_items:
+                    why.append(f"{n}-over-a-same-lettered-other-dimension")  # other items under the same letter: not the stock's dimension
             lm = call.kwargs.get("lifetime_model")
             if isinstance(lm, fd.LifetimeModel) and tuple(lm.dims.letters) != letters:
                 why.append("lifetime-model-dims-differ")
+            elif isinstance(lm, fd.LifetimeModel) and [tuple(d.items) for d in lm.dims.dim_list] != own_items:
+                why.append("lifetime-model-over-a-same-lettered-other-dimension")
             if not letters or letters[0] != tl:
                 why.append("time-not-first")
             rec.event(M13R, sig=f"{cls}|{letters}|{why}", cls=f"stock-init|{'ill-formed' if why else 'well-formed'}")
